@@ -51,6 +51,28 @@ OR opt_lv(int& x, bool& f) { return xtl::optional(x, f); }
 OV opt_rv(int&& x, bool&& f) { return xtl::optional(static_cast<int&&>(x), static_cast<bool&&>(f)); }
 void opt_assign(OR& o, const OV& v) { o = v; }
 OV opt_copy_out(const OR& o) { return OV(o); }
+// explicit trait instantiations for rvalue-reference source expressions: the closure must own a value, not alias the source
+using WKR = xtl::xclosure_wrapper<xtl::const_closure_type_t<int&&>>;
+using WTR = xtl::xclosure_wrapper<xtl::closure_type_t<int&&>>;
+bool trait_const_rv_aliases(int&& x) { WKR w(static_cast<int&&>(x)); return &w.get() == &x; }
+bool trait_rv_aliases(int&& x) { WTR w(static_cast<int&&>(x)); return &w.get() == &x; }
+bool trait_const_lv_aliases(int& x) { xtl::xclosure_wrapper<xtl::const_closure_type_t<int&>> w(x); return &w.get() == &x; }
+bool trait_lv_aliases(int& x) { xtl::xclosure_wrapper<xtl::closure_type_t<int&>> w(x); return &w.get() == &x; }
+bool trait_clv_aliases(const int& x) { xtl::xclosure_wrapper<xtl::closure_type_t<const int&>> w(x); return &w.get() == &x; }
+// extracting from an rvalue owning closure yields an independent object, from an rvalue reference closure the referent
+bool get_rv_owned_aliases(WV&& w) { auto&& r = static_cast<WV&&>(w).get(); return &r == &w.get(); }
+int* get_rv_ref(WR&& w) { auto&& r = static_cast<WR&&>(w).get(); return &r; }
+// free value() / has_value() on a temporary optional of references designate the referents
+int* val_rv(int& x, bool& f) { auto&& r = xtl::value(xtl::optional(x, f)); return &r; }
+bool* hasval_rv(int& x, bool& f) { auto&& r = xtl::has_value(xtl::optional(x, f)); return &r; }
+int* val_lv(OR& o) { return &xtl::value(o); }
+bool* hasval_lv(OR& o) { return &xtl::has_value(o); }
+// closure pointers
+int* cp_lv(int& x) { auto p = xtl::closure_pointer(x); return &*p; }
+const int* ccp_lv(int& x) { auto p = xtl::const_closure_pointer(x); return &*p; }
+bool cp_rv_aliases(int&& x) { auto p = xtl::closure_pointer(static_cast<int&&>(x)); return &*p == &x; }
+int cp_rv_val(int&& x) { auto p = xtl::closure_pointer(static_cast<int&&>(x)); return *p; }
+int* cp_arrow(int& x) { auto p = xtl::closure_pointer(x); return p.operator->(); }
 // bitset element references
 using BS = xtl::xdynamic_bitset<unsigned char>;
 using BR = BS::reference;
